@@ -134,17 +134,32 @@ static void dump(Scene &sc, int tx, bool processed, std::map<const void *, unsig
         }
         lists.push_back(l);
     }
+    // connectors created and deleted inside the transaction are known to neither snapshot (and are freed): they get a
+    // per-transaction token <= -10 so that they cancel between the new and the deleted list
+    std::map<const void *, long> transient;
     for (size_t k = 0; k < lists.size(); ++k)
     {
         HyperedgeNewAndDeletedObjectLists &l = lists[k];
         for (ConnRefList::iterator i = l.newConnectorList.begin(); i != l.newConnectorList.end(); ++i)
-            newC.push_back(cAfter.count(*i) ? (long) cAfter[*i] : (cBefore.count(*i) ? -(long) cBefore[*i] - 1000000 : -1));
+        {
+            if (cAfter.count(*i)) newC.push_back((long) cAfter[*i]);
+            else { if (!transient.count(*i)) { long tk = -10 - (long) transient.size(); transient[*i] = tk; } newC.push_back(transient[*i]); }
+        }
+    }
+    for (size_t k = 0; k < lists.size(); ++k)
+    {
+        HyperedgeNewAndDeletedObjectLists &l = lists[k];
         for (ConnRefList::iterator i = l.deletedConnectorList.begin(); i != l.deletedConnectorList.end(); ++i)
-            delC.push_back(cBefore.count(*i) ? (long) cBefore[*i] : (cAfter.count(*i) ? -(long) cAfter[*i] - 1000000 : -1));
+        {
+            if (cBefore.count(*i)) delC.push_back((long) cBefore[*i]);
+            else if (transient.count(*i)) delC.push_back(transient[*i]);
+            else delC.push_back(-1);
+        }
+        // junctions stay allocated until the next transaction (queued JunctionRemove): their ids can be read
         for (JunctionRefList::iterator i = l.newJunctionList.begin(); i != l.newJunctionList.end(); ++i)
             newJ.push_back((*i)->id());
         for (JunctionRefList::iterator i = l.deletedJunctionList.begin(); i != l.deletedJunctionList.end(); ++i)
-            delJ.push_back(jBefore.count(*i) ? (long) jBefore[*i] : ((jAfter.count(*i)) ? (long) jAfter[*i] : -1));
+            delJ.push_back((*i)->id());
     }
     printList("NEWC", newC); printList("DELC", delC); printList("NEWJ", newJ); printList("DELJ", delJ);
     printf("ENDTX\n");
